@@ -252,11 +252,11 @@ impl GenericsAnalyzer {
                     syn::WherePredicate::Type(predicate_type) => match &predicate_type.bounded_ty {
                         syn::Type::Path(type_path) => {
                             if type_path.qself.is_some() || type_path.path.leading_colon.is_some() {
-                                self.trait_generics.where_predicates.push(predicate.clone());
+                                self.lift_where_predicate(predicate, generics);
                                 continue;
                             }
                             if type_path.path.segments.len() != 1 {
-                                self.trait_generics.where_predicates.push(predicate.clone());
+                                self.lift_where_predicate(predicate, generics);
                                 continue;
                             }
                             let first_segment = type_path.path.segments.first().unwrap();
@@ -268,11 +268,11 @@ impl GenericsAnalyzer {
                             }
                         }
                         _ => {
-                            self.trait_generics.where_predicates.push(predicate.clone());
+                            self.lift_where_predicate(predicate, generics);
                         }
                     },
                     _ => {
-                        self.trait_generics.where_predicates.push(predicate.clone());
+                        self.lift_where_predicate(predicate, generics);
                     }
                 }
             }
@@ -282,6 +282,37 @@ impl GenericsAnalyzer {
             generic_param: Some(generic_param_ident.clone()),
             trait_bounds: deps_trait_bounds,
         })
+    }
+
+    /// Move a where predicate of the fn to the trait, unless it mentions one of the fn's
+    /// lifetime parameters: those stay on the method, and so must the predicate.
+    fn lift_where_predicate(&mut self, predicate: &syn::WherePredicate, generics: &syn::Generics) {
+        fn mentions_lifetime_param(stream: proc_macro2::TokenStream, generics: &syn::Generics) -> bool {
+            let mut after_tick = false;
+            for token in stream {
+                match token {
+                    proc_macro2::TokenTree::Punct(punct) => after_tick = punct.as_char() == '\'',
+                    proc_macro2::TokenTree::Ident(ident) => {
+                        if after_tick && generics.lifetimes().any(|lt| lt.lifetime.ident == ident) {
+                            return true;
+                        }
+                        after_tick = false;
+                    }
+                    proc_macro2::TokenTree::Group(group) => {
+                        if mentions_lifetime_param(group.stream(), generics) {
+                            return true;
+                        }
+                        after_tick = false;
+                    }
+                    proc_macro2::TokenTree::Literal(_) => after_tick = false,
+                }
+            }
+            false
+        }
+
+        if !mentions_lifetime_param(quote::ToTokens::to_token_stream(predicate), generics) {
+            self.trait_generics.where_predicates.push(predicate.clone());
+        }
     }
 
     fn deps_with_generics(
@@ -303,7 +334,7 @@ impl GenericsAnalyzer {
 
         if let Some(where_clause) = &generics.where_clause {
             for predicate in &where_clause.predicates {
-                self.trait_generics.where_predicates.push(predicate.clone());
+                self.lift_where_predicate(predicate, generics);
             }
         }
 
